@@ -214,3 +214,14 @@ pub proof fn lemma_entries_len_mono(es: Seq<HeaderEntry>, i: int, j: int)
 {
     if i < j { lemma_entries_len_mono(es, i, j - 1); } else if i > 0 { lemma_entries_len_mono(es, i - 1, j - 1); }
 }
+
+// ---- ROUND TRIP over the contracts of the real functions (checked composition, not a new assumption): a blob written into a
+//      header entry and read back at its offset is the same index entry -- this is why an index rebuilt from pack headers
+//      equals the index that was lost (uncompressed_length is a NonZeroU32: Some(0) cannot occur)
+pub fn lemma_header_entry_round_trip(blob: &IndexBlob) -> (r: IndexBlob)
+    requires blob.location.uncompressed_length matches Some(u) ==> u != 0,
+    ensures r.id.0 == blob.id.0 && r.tpe == blob.tpe && r.location.offset == blob.location.offset && r.location.length == blob.location.length
+        && r.location.uncompressed_length == blob.location.uncompressed_length,
+{
+    HeaderEntry::from_blob(blob).into_blob(blob.location.offset)
+}
